@@ -38,7 +38,8 @@ class Proof:
                  loops=(), rules=None, expect=(), canaries=1, unwind=None, unwindset=None, kind='proof',
                  bound_note=None, cbmc_flags=None, drop_flags=(), timeout=600, mem_gb=24, defines=(),
                  functions=(), mutants=(), object_bits=8, solver='--sat-solver cadical', note='', extern_c=True,
-                 no_contract=False, plain=False, assumed=(), replay=None, partial_loops=False, dead_ok=(), frame_is_property=False, slice_formula=False, nondet_static=False, unwind_loops=(), split=1):
+                 no_contract=False, plain=False, assumed=(), replay=None, partial_loops=False, dead_ok=(), frame_is_property=False, slice_formula=False, nondet_static=False, unwind_loops=(), split=1, fallback_unwind=None):
+        self.fallback_unwind = fallback_unwind        # if the loop contracts no longer match the loops of the code: unwind every loop to this (complete) bound instead
         self.split = split                            # >1: the obligations are partitioned into this many groups, one cbmc run per group (in parallel)
         self.unwind_loops = list(unwind_loops)        # [(function, ordinal of the loop in source order, bound)] -> --unwindset (ids resolved per run)
         self.nondet_static = nondet_static            # plain VC proofs: objects with static lifetime start with arbitrary values (cbmc --nondet-static)
@@ -329,7 +330,15 @@ def run_proof(proof, workroot, mutate=None, keep=False, quiet=False):
             if rc != 0:
                 raise Undecided('link failed: ' + (err + out)[-1500:])
             gb = 'all.gb'
-        lfile, nloops = (None, 0) if proof.plain else resolve_loops(proof, gb, cwd, impl_name)
+        fb_unwind = None
+        try:
+            lfile, nloops = (None, 0) if proof.plain else resolve_loops(proof, gb, cwd, impl_name)
+        except Undecided as e:
+            if proof.fallback_unwind is None:
+                raise
+            # the loops of the code are not the loops the contracts were written for (a refactored loop): the bound-based route
+            lfile, nloops, fb_unwind = None, 0, proof.fallback_unwind
+            res['loop_contract_fallback'] = 'loop contracts not applicable (%s): every loop unwound %d times with unwinding assertions' % (e, fb_unwind)
         res['loop_contracts'] = nloops
         cmd = ['goto-instrument', '--dfcc', 'main']
         if proof.enforce and not proof.no_contract:
@@ -349,8 +358,8 @@ def run_proof(proof, workroot, mutate=None, keep=False, quiet=False):
             raise Undecided('goto-instrument failed: ' + (err + out)[-2500:])
         flags = list(proof.cbmc_flags if proof.cbmc_flags is not None else DEFAULT_CBMC_FLAGS)
         flags = [f for f in flags if f not in proof.drop_flags]
-        if proof.unwind is not None:
-            flags += ['--unwind', str(proof.unwind)]
+        if proof.unwind is not None or fb_unwind is not None:
+            flags += ['--unwind', str(fb_unwind if fb_unwind is not None else proof.unwind)]
         uw = [proof.unwindset] if proof.unwindset else []
         if proof.unwind_loops:
             lp = show_loops('inst.gb', cwd)
@@ -415,7 +424,7 @@ def run_proof(proof, workroot, mutate=None, keep=False, quiet=False):
         res['obligations'], res['discharged'] = n_ob, n_ok
         res['present'] = len(present)
         # named obligations must exist
-        missing = [e for e in proof.expect if not any(re.search(e, p) for p in present)]
+        missing = [e for e in proof.expect if not any(re.search(e, p) for p in present) and not (fb_unwind is not None and 'loop_' in e)]
         if nloops:
             steps = len([p for p in present if 'loop_invariant_step' in p or 'Check invariant after step' in p or 'preserved' in p])
             res['loop_invariant_step_obligations'] = steps
